@@ -1,6 +1,10 @@
 package proto
 
-import "github.com/go-faster/errors"
+import (
+	"strings"
+
+	"github.com/go-faster/errors"
+)
 
 // ColTuple is Tuple column.
 //
@@ -107,14 +111,41 @@ func (c ColTuple) Prepare() error {
 }
 
 func (c ColTuple) Infer(t ColumnType) error {
-	for _, v := range c {
+	// Each element should infer from its own type, not from the whole tuple.
+	elems := splitTypeParams(string(t.Elem()))
+	if len(elems) != len(c) {
+		return errors.Errorf("tuple of %d elements can't infer from %q", len(c), t)
+	}
+	for i, v := range c {
 		if s, ok := v.(Inferable); ok {
-			if err := s.Infer(t); err != nil {
+			if err := s.Infer(tupleElemType(elems[i])); err != nil {
 				return errors.Wrap(err, "infer")
 			}
 		}
 	}
 	return nil
+}
+
+// tupleElemType returns type of tuple element, dropping name of named tuple
+// element, like "a" in "a Nullable(String)".
+func tupleElemType(elem string) ColumnType {
+	var depth int
+	for i := 0; i < len(elem); i++ {
+		switch elem[i] {
+		case '(':
+			depth++
+		case ')':
+			depth--
+		case '\'':
+			// Quotes are possible only in parameters.
+			return ColumnType(elem)
+		case ' ':
+			if depth == 0 {
+				return ColumnType(strings.TrimSpace(elem[i+1:]))
+			}
+		}
+	}
+	return ColumnType(elem)
 }
 
 func (c ColTuple) EncodeState(b *Buffer) {
